@@ -81,6 +81,13 @@ def worlds(tier):
                         for opts in optsets:
                             wid += 1
                             yield make_world(wid, tv, [hp], rs, margin, depth=1), opts
+                        if margin == 1 and (snv_only or k == 2):
+                            # unphased genotypes spelled 1/0 in the input
+                            for opts, sp in ((dict(tag="HP"), "mixed"), (dict(tag="PS"), "mixed"), (dict(tag="HP"), "desc")):
+                                wid += 1
+                                w = make_world(wid, tv, [hp], rs, margin, depth=1)
+                                w["gt_spelling"] = sp
+                                yield w, opts
     # two samples with different haplotypes, reads from both read groups, --sample subsets
     for tv in [(("SNV", 1), ("SNV", 1), ("SNV", 1)), (("SNV", 1), ("INS", 2), ("DEL", 1)), (("DEL", 2), ("SNV", 1), ("MNP", 2))]:
         k = 3
